@@ -35,7 +35,7 @@ func init() {
 		Batches:     func(tier string) int { return 16 },
 		Parallel:    func(tier string) int { return 8 },
 		Require: func(tier string) map[string]int64 {
-			return map[string]int64{"streams": 500, "events_delivered": 5000, "events_filtered_out": 1000, "invalidations": 50, "resumed_streams": 25, "start_at_streams": 60, "retention_streams": 60, "lost_position_reported": 10,
+			return map[string]int64{"streams": 500, "events_delivered": 5000, "events_filtered_out": 1000, "invalidations": 50, "resumed_streams": 25, "start_at_streams": 60, "retention_streams": 60, "lost_position_reported": 10, "late_resume_token_discarded": 40, "late_resume_token_retained": 40, "late_resume_rejected": 20,
 				"concurrent_runs": 48, "concurrent_events_delivered": 2000, "parked_consumers_released": 60, "directed_wait_windows_hit": 10}
 		},
 		Run: runC09,
@@ -418,6 +418,41 @@ func c09Retention(c *fw.Ctx) {
 					tok, _ := bson.Marshal(ref.GetPath(full[k], "_id"))
 					o.SetResumeAfter(bson.Raw(tok))
 					st.start = k + 1
+				case "late-resume", "late-startAfter":
+					// a consumer coming back with the token of any event of the history,
+					// including one the retention has discarded in the meantime
+					k := r.Intn(len(full))
+					tok, _ := bson.Marshal(ref.GetPath(full[k], "_id"))
+					if kind == "late-resume" {
+						o.SetResumeAfter(bson.Raw(tok))
+					} else {
+						o.SetStartAfter(bson.Raw(tok))
+					}
+					st.start = k + 1
+					present := false
+					for _, e := range oplogEvents(engine.Catalog()) {
+						if evID(e) == evID(full[k]) {
+							present = true
+						}
+					}
+					if present {
+						c.Count("late_resume_token_retained", 1)
+					} else {
+						c.Count("late_resume_token_discarded", 1)
+					}
+					s, err := client.Watch(ctx, bson.A{}, o)
+					if err != nil {
+						if present {
+							c.Violate("retention-stream:resume-rejected", fmt.Sprintf("resuming (%s) from the token of event number %d, which is still in the change log, was rejected: %v", kind, k, err), desc)
+						} else {
+							c.Count("late_resume_rejected", 1)
+						}
+						return
+					}
+					st.s = s
+					streams = append(streams, st)
+					c.Count("retention_streams", 1)
+					return
 				}
 				s, err := client.Watch(ctx, bson.A{}, o)
 				if err != nil {
@@ -490,10 +525,15 @@ func c09Retention(c *fw.Ctx) {
 					return
 				}
 				record()
+				if r.Chance(1, 3) {
+					open([]string{"late-resume", "late-startAfter"}[r.Intn(2)])
+				}
 			}
 			if spurious {
 				return
 			}
+			open("late-resume")
+			open("late-startAfter")
 			for _, st := range streams {
 				consume(st, 1000)
 				// delivered must be a gap-free run of the complete history from the start position
